@@ -42,7 +42,8 @@ LEVEL_TEXT = ("Exploration: thousands of generated SWC texts (line grammar varia
               " Option flags are also spelled as numpy bools and ints."
               " Texts with the writer's own column banner; data-row counts on / next to multiples of 4096 / 8192; populations with a member holding undecodable bytes, opened without naming an encoding."
               " Separators incl. form feed and the ASCII / Unicode line-boundary characters; one-shot iterables for multi-valued arguments; positional call forms; malformed rows that carry a trailing remark."
-              " A second population over the same directory read after the first one's trees were edited in place.")
+              " A second population over the same directory read after the first one's trees were edited in place."
+              " Populations built from the caller's own list of names, which is reversed and emptied afterwards.")
 LEVEL_NOTE = ("Malformed classes injected: a row with 1-6 fields, a row with a token containing a "
               "letter, free text, a row lacking a requested extra column, invalid UTF-8 bytes. Rows "
               "with negative ids, inf/nan spelled numerically, or ignored trailing fields in exponent "
